@@ -56,7 +56,7 @@ var numericDefs = []vdef{
 	e("2 ** 1024"),
 	et("-18446744073709551617"), et("2 ** 1023"),
 	// Float
-	e("0.0"), e("z := 0.0\n-z"), e("1.0"), e("-1.0"), e("1.5"), e("0.1"), e("16777216.0"), e("16777217.0"),
+	e("0.0"), e("-fz()"), e("1.0"), e("-1.0"), e("1.5"), e("0.1"), e("16777216.0"), e("16777217.0"),
 	e("9007199254740992.0"), e("9007199254740994.0"), e("-9007199254740992.0"),
 	e("9223372036854775808.0"), e("18446744073709551616.0"), e("1267650600228229401496703205376.0"),
 	e("1.7976931348623157e+308"),
@@ -71,8 +71,8 @@ var numericDefs = []vdef{
 	g("BigFloat -Inf", func() value.Value { return value.Ref(value.BigFloatNegInf()) }),
 	et("-1.5bf"), et("9223372036854775808bf"),
 	// Float64 / Float32
-	e("1.0f64"), e("1.5f64"), e("0.1f64"), e("9007199254740992.0f64"), e("z := 0.0f64\n-z"), e("0.0f64"), e("0.0f64 / 0.0f64"),
-	e("1.0f32"), e("1.5f32"), e("0.1f32"), e("16777216.0f32"), e("0.0f32"), e("z := 0.0f32\n-z"), e("0.0f32 / 0.0f32"),
+	e("1.0f64"), e("1.5f64"), e("0.1f64"), e("9007199254740992.0f64"), e("-fz64()"), e("0.0f64"), e("0.0f64 / 0.0f64"),
+	e("1.0f32"), e("1.5f32"), e("0.1f32"), e("16777216.0f32"), e("0.0f32"), e("-fz32()"), e("0.0f32 / 0.0f32"),
 	// fixed-width integers
 	e("1i8"), e("-1i8"), e("1i16"), e("1i32"), e("16777217i32"),
 	e("1i64"), e("-1i64"), e("9007199254740993i64"), e("9223372036854775807i64"),
@@ -89,7 +89,7 @@ var otherDefs = []vdef{
 	e("`a`"), e("`b`"), e("`é`"),
 	e(":a"), e(":b"), e(`:"a b"`), e(":+"),
 	e("nil"), e("true"), e("false"),
-	e("[]"), e("[1]"), e("[1, 2]"), e("[2, 1]"), e("[1.0]"), e("[[1]]"), e(`["a"]`), e("[nil]"), e("[Float::NAN]"), e("[0.0]"), e("z := 0.0\n[-z]"),
+	e("[]"), e("[1]"), e("[1, 2]"), e("[2, 1]"), e("[1.0]"), e("[[1]]"), e(`["a"]`), e("[nil]"), e("[Float::NAN]"), e("[0.0]"), e("[-fz()]"),
 	e("%[]"), e("%[1]"), e("%[1, 2]"), e(`%["a"]`),
 	e("{}"), e("{ 1 => 2 }"), e("{ 1 => 2, 3 => 4 }"), e("{ 3 => 4, 1 => 2 }"), e("{ 1 => 2.0 }"), e(`{ "a" => 1 }`), e("{ 1 => [2] }"),
 	e("%{}"), e("%{ 1 => 2 }"), e("%{ 1 => 2, 3 => 4 }"), e("%{ 3 => 4, 1 => 2 }"),
@@ -107,6 +107,7 @@ var otherDefs = []vdef{
 
 type val struct {
 	idx     int
+	nidx    int // index among the numbers
 	label   string
 	v, copy value.Value // two independently constructed instances
 	class   string      // class name without Std::
@@ -222,50 +223,75 @@ func exactOf(v value.Value) *big.Float {
 	return nil
 }
 
+const valPrelude = "def fz: Float then 0.0\ndef fz64: Float64 then 0.0f64\ndef fz32: Float32 then 0.0f32\n"
+
+// evalAll evaluates all Elk-sourced definitions in one program (a list literal); when that program cannot be
+// compiled or run, every definition is evaluated on its own so that one bad expression only loses itself.
+func evalAll(defs []vdef) ([]value.Value, []string) {
+	vals := make([]value.Value, len(defs))
+	msgs := make([]string, len(defs))
+	var b strings.Builder
+	b.WriteString(valPrelude + "[\n")
+	var idx []int
+	for i, d := range defs {
+		if d.mk != nil {
+			vals[i] = d.mk()
+			continue
+		}
+		idx = append(idx, i)
+		fmt.Fprintf(&b, "  (%s),\n", d.src)
+	}
+	b.WriteString("]\n")
+	if out, msg := evalElk(b.String()); msg == "" && out.IsReference() {
+		if l, ok := out.AsReference().(value.ArrayList); ok && l.Length() == len(idx) {
+			for k, i := range idx {
+				vals[i] = l.AtVal(k)
+			}
+			return vals, msgs
+		}
+	}
+	for _, i := range idx {
+		vals[i], msgs[i] = evalElk(valPrelude + defs[i].src)
+	}
+	return vals, msgs
+}
+
 func build(thorough bool) {
 	buildMu.Do(func() {
-		mk := func(d vdef) *val {
-			var a, b value.Value
-			var msg string
-			if d.mk != nil {
-				a, b = d.mk(), d.mk()
-			} else {
-				a, msg = evalElk(d.src)
-				if msg == "" {
-					b, msg = evalElk(d.src)
-				}
-			}
-			if msg != "" || a.IsUndefined() {
-				skipped = append(skipped, d.label+": "+msg)
-				return nil
-			}
-			x := &val{label: strings.ReplaceAll(d.label, "\n", "; "), v: a, copy: b, class: className(a)}
-			x.numeric = isNumericClass(x.class)
-			if x.numeric {
-				x.exact = exactOf(a)
-				x.nan = x.exact == nil
-			} else {
-				x.nan = strings.Contains(a.Inspect(), "NAN")
-			}
-			return x
-		}
+		var defs []vdef
+		nNum := 0
 		for _, d := range numericDefs {
-			if d.thorough && !thorough {
+			if !d.thorough || thorough {
+				defs = append(defs, d)
+				nNum++
+			}
+		}
+		for _, d := range otherDefs {
+			if !d.thorough || thorough {
+				defs = append(defs, d)
+			}
+		}
+		v1, m1 := evalAll(defs)
+		v2, m2 := evalAll(defs)
+		for i, d := range defs {
+			if m1[i] != "" || m2[i] != "" || v1[i].IsUndefined() || v2[i].IsUndefined() {
+				skipped = append(skipped, d.label+": "+m1[i]+m2[i])
 				continue
 			}
-			if x := mk(d); x != nil {
+			x := &val{label: d.label, v: v1[i], copy: v2[i], class: className(v1[i])}
+			x.numeric = isNumericClass(x.class)
+			if i < nNum {
 				if !x.numeric {
 					skipped = append(skipped, d.label+": not a number but "+x.class)
 					continue
 				}
+				x.exact = exactOf(x.v)
+				x.nan = x.exact == nil
+				x.nidx = len(numbers)
 				numbers = append(numbers, x)
-			}
-		}
-		for _, d := range otherDefs {
-			if d.thorough && !thorough {
-				continue
-			}
-			if x := mk(d); x != nil {
+			} else {
+				x.numeric = false
+				x.nan = strings.Contains(x.v.Inspect(), "NAN")
 				others = append(others, x)
 			}
 		}
@@ -406,6 +432,28 @@ func kinds(vs ...*val) string {
 	return strings.Join(ks, ",")
 }
 
+func famKinds(vs ...*val) string {
+	m := map[string]bool{}
+	for _, v := range vs {
+		m[family(v.class)] = true
+	}
+	var ks []string
+	for k := range m {
+		ks = append(ks, k)
+	}
+	sort.Strings(ks)
+	return strings.Join(ks, ",")
+}
+
+// identityHash: the value has no builtin hash and its class inherits `hash` from Std::Value (pointer identity).
+func identityHash(v value.Value) bool {
+	if _, err := value.Hash(v); err != value.Ref(value.NotBuiltinError) {
+		return false
+	}
+	m := v.DirectClass().LookupMethod(value.ToSymbol("hash"))
+	return m == nil || m == value.ValueClass.LookupMethod(value.ToSymbol("hash"))
+}
+
 func exactCmp(a, b *val) int { return a.exact.Cmp(b.exact) }
 
 // pair tables over the numbers (computed once per worker)
@@ -529,7 +577,13 @@ func eqCase(c *engine.Ctx, a *val) {
 				case !ha.ok || !hb.ok:
 					r.Count("equal_pairs_without_hash", 1)
 				case ha.h != hb.h:
-					r.Violation("== without equal hash kinds="+kp, fmt.Sprintf("%s: a == b but hash(a) = %#x, hash(b) = %#x", desc, ha.h, hb.h), desc)
+					if identityHash(a.v) && identityHash(bv) {
+						// one defect for every class that overrides == structurally but keeps Value#hash
+						r.Count("structural_==_with_identity_hash: "+kp, 1)
+						r.Violation("== without equal hash: == is structural but hash is the identity hash inherited from Value", fmt.Sprintf("%s: a == b but hash(a) = %#x, hash(b) = %#x (class %s defines no hash of its own; affected classes are listed in the evidence counters)", desc, ha.h, hb.h, a.class), desc)
+					} else {
+						r.Violation("== without equal hash kinds="+famKinds(a, b), fmt.Sprintf("%s: a == b but hash(a) = %#x, hash(b) = %#x", desc, ha.h, hb.h), desc)
+					}
 				default:
 					r.Outcome("equal, same hash")
 				}
@@ -579,6 +633,9 @@ func ulpClose(a, b *val) bool {
 }
 
 func nontrivialPair(a, b *val) bool {
+	if a.nan || b.nan {
+		return true
+	}
 	return a.class != b.class || a.v.IsReference() != b.v.IsReference() || ulpClose(a, b)
 }
 
@@ -619,31 +676,47 @@ func numPairCase(c *engine.Ctx, i int) {
 			if defined == 0 {
 				r.Outcome("ordering undefined between these kinds")
 			}
-			viol := func(law, detail string) {
-				r.Violation(fmt.Sprintf("disagree %s kinds=%s", law, fp), desc+": "+detail+exactNote(a, b), desc)
+			// the signature names the operator whose answer for this pair (or the converse pair) deviates from exact
+			// arithmetic; the violated law is in the detail
+			got := map[string]obs{"<": lt, "<=": le, ">": gt, ">=": ge, "=~": lax, "<=>": cmp}
+			conv := map[string]obs{"<": t.lt[j][i], "<=": t.le[j][i], ">": t.gt[j][i], ">=": t.ge[j][i], "=~": t.lax[j][i], "<=>": t.cmp[j][i]}
+			viol := func(law, detail string, ops ...string) {
+				var bad []string
+				for _, op := range ops {
+					if w, how := wrongAnswer(op, got[op], a, b); w {
+						bad = append(bad, how)
+					} else if w, how := wrongAnswer(op, conv[op], b, a); w {
+						bad = append(bad, how)
+					}
+				}
+				sig := fmt.Sprintf("disagree %s kinds=%s", law, fp)
+				if len(bad) > 0 {
+					sig = fmt.Sprintf("inconsistent: %s between %s", strings.Join(bad, ", "), fp)
+				}
+				r.Violation(sig, desc+": violated law: "+law+": "+detail+exactNote(a, b), desc)
 			}
 			if cmp.ok {
 				if cmp.isNil {
-					viol("<=> nil for non-NaN numbers", "a <=> b is nil")
+					viol("<=> nil for non-NaN numbers", "a <=> b is nil", "<=>")
 				} else {
 					if cmp.n < -1 || cmp.n > 1 {
-						viol("<=> range", fmt.Sprintf("a <=> b = %d", cmp.n))
+						viol("<=> range", fmt.Sprintf("a <=> b = %d", cmp.n), "<=>")
 					}
 					r.Outcome(fmt.Sprintf("<=> %d", cmp.n))
 					if lt.ok && lt.b != (cmp.n < 0) {
-						viol("< vs <=>", fmt.Sprintf("a < b is %v but a <=> b is %d", lt.b, cmp.n))
+						viol("< vs <=>", fmt.Sprintf("a < b is %v but a <=> b is %d", lt.b, cmp.n), "<", "<=>")
 					}
 					if le.ok && le.b != (cmp.n <= 0) {
-						viol("<= vs <=>", fmt.Sprintf("a <= b is %v but a <=> b is %d", le.b, cmp.n))
+						viol("<= vs <=>", fmt.Sprintf("a <= b is %v but a <=> b is %d", le.b, cmp.n), "<=", "<=>")
 					}
 					if gt.ok && gt.b != (cmp.n > 0) {
-						viol("> vs <=>", fmt.Sprintf("a > b is %v but a <=> b is %d", gt.b, cmp.n))
+						viol("> vs <=>", fmt.Sprintf("a > b is %v but a <=> b is %d", gt.b, cmp.n), ">", "<=>")
 					}
 					if ge.ok && ge.b != (cmp.n >= 0) {
-						viol(">= vs <=>", fmt.Sprintf("a >= b is %v but a <=> b is %d", ge.b, cmp.n))
+						viol(">= vs <=>", fmt.Sprintf("a >= b is %v but a <=> b is %d", ge.b, cmp.n), ">=", "<=>")
 					}
 					if lax.ok && lax.b != (cmp.n == 0) {
-						viol("=~ vs <=>", fmt.Sprintf("a =~ b is %v but a <=> b is %d", lax.b, cmp.n))
+						viol("=~ vs <=>", fmt.Sprintf("a =~ b is %v but a <=> b is %d", lax.b, cmp.n), "=~", "<=>")
 					}
 				}
 			}
@@ -655,27 +728,27 @@ func numPairCase(c *engine.Ctx, i int) {
 					}
 				}
 				if cnt != 1 {
-					viol("trichotomy < =~ >", fmt.Sprintf("a < b: %v, a =~ b: %v, a > b: %v (exactly one must hold)", lt.b, lax.b, gt.b))
+					viol("trichotomy < =~ >", fmt.Sprintf("a < b: %v, a =~ b: %v, a > b: %v (exactly one must hold)", lt.b, lax.b, gt.b), "<", "=~", ">")
 				}
 			}
 			if le.ok && lt.ok && lax.ok && le.b != (lt.b || lax.b) {
-				viol("<= vs < or =~", fmt.Sprintf("a <= b: %v, a < b: %v, a =~ b: %v", le.b, lt.b, lax.b))
+				viol("<= vs < or =~", fmt.Sprintf("a <= b: %v, a < b: %v, a =~ b: %v", le.b, lt.b, lax.b), "<=", "<", "=~")
 			}
 			if ge.ok && gt.ok && lax.ok && ge.b != (gt.b || lax.b) {
-				viol(">= vs > or =~", fmt.Sprintf("a >= b: %v, a > b: %v, a =~ b: %v", ge.b, gt.b, lax.b))
+				viol(">= vs > or =~", fmt.Sprintf("a >= b: %v, a > b: %v, a =~ b: %v", ge.b, gt.b, lax.b), ">=", ">", "=~")
 			}
 			// converse pair
 			if o := t.gt[j][i]; lt.ok && o.ok && lt.b != o.b {
-				viol("a < b vs b > a", fmt.Sprintf("a < b: %v, b > a: %v", lt.b, o.b))
+				viol("a < b vs b > a", fmt.Sprintf("a < b: %v, b > a: %v", lt.b, o.b), "<", ">")
 			}
 			if o := t.ge[j][i]; le.ok && o.ok && le.b != o.b {
-				viol("a <= b vs b >= a", fmt.Sprintf("a <= b: %v, b >= a: %v", le.b, o.b))
+				viol("a <= b vs b >= a", fmt.Sprintf("a <= b: %v, b >= a: %v", le.b, o.b), "<=", ">=")
 			}
 			if o := t.lax[j][i]; lax.ok && o.ok && lax.b != o.b {
-				viol("a =~ b vs b =~ a", fmt.Sprintf("a =~ b: %v, b =~ a: %v", lax.b, o.b))
+				viol("a =~ b vs b =~ a", fmt.Sprintf("a =~ b: %v, b =~ a: %v", lax.b, o.b), "=~")
 			}
 			if o := t.cmp[j][i]; cmp.ok && o.ok && !cmp.isNil && !o.isNil && cmp.n != -o.n {
-				viol("a <=> b vs b <=> a", fmt.Sprintf("a <=> b: %d, b <=> a: %d", cmp.n, o.n))
+				viol("a <=> b vs b <=> a", fmt.Sprintf("a <=> b: %d, b <=> a: %d", cmp.n, o.n), "<=>")
 			}
 		}
 		r.Sample(fmt.Sprintf("%s compared with all %d numbers by < <= > >= <=> =~", a.label, len(numbers)))
@@ -690,21 +763,40 @@ func exactNote(vs ...*val) string {
 	return " [exact values: " + strings.Join(p, ", ") + "]"
 }
 
+var opName = map[string]string{"<": "lt", "<=": "le", ">": "gt", ">=": "ge", "=~": "laxeq", "<=>": "cmp"}
+
+// wrongAnswer: the (defined) answer of op for (a, b) deviates from exact arithmetic; how describes the deviation.
+func wrongAnswer(op string, o obs, a, b *val) (bool, string) {
+	if !o.ok {
+		return false, ""
+	}
+	c := exactCmp(a, b)
+	var want bool
+	switch op {
+	case "<":
+		want = c < 0
+	case "<=":
+		want = c <= 0
+	case ">":
+		want = c > 0
+	case ">=":
+		want = c >= 0
+	case "=~":
+		want = c == 0
+	case "<=>":
+		if o.isNil {
+			return true, "cmp <=> is nil for ordered numbers"
+		}
+		return o.n != c, fmt.Sprintf("cmp <=> is %d but exactly %d", o.n, c)
+	}
+	return o.b != want, fmt.Sprintf("%s %s is %v but exactly %v", opName[op], op, o.b, want)
+}
+
 // inexact names the first pair whose answer to op deviates from exact arithmetic.
 func inexact(op string, answers []bool, pairs [][2]*val) string {
 	for k, p := range pairs {
-		c := exactCmp(p[0], p[1])
-		var want bool
-		switch op {
-		case "<":
-			want = c < 0
-		case "<=":
-			want = c <= 0
-		case "=~":
-			want = c == 0
-		}
-		if answers[k] != want {
-			return fmt.Sprintf("inexact %s between %s", op, famPair(p[0], p[1]))
+		if w, how := wrongAnswer(op, obs{ok: true, b: answers[k]}, p[0], p[1]); w {
+			return how + " between " + famPair(p[0], p[1])
 		}
 	}
 	return "no single inexact pair"
@@ -748,8 +840,8 @@ func tripleCase(c *engine.Ctx, i int) {
 						}
 						culprit := inexact(rel.name, []bool{true, true, false}, [][2]*val{{a, b}, {b, cc}, {a, cc}})
 						desc := fmt.Sprintf("a = %s (%s), b = %s (%s), c = %s (%s)", a.label, a.class, b.label, b.class, cc.label, cc.class)
-						r.Violation(fmt.Sprintf("%s not transitive: %s", rel.name, culprit),
-							fmt.Sprintf("%s: a %s b and b %s c hold but a %s c is false%s", desc, rel.name, rel.name, rel.name, exactNote(a, b, cc)), desc)
+						r.Violation("inconsistent: "+culprit,
+							fmt.Sprintf("%s: violated law: %s transitive: a %s b and b %s c hold but a %s c is false%s", desc, rel.name, rel.name, rel.name, rel.name, exactNote(a, b, cc)), desc)
 					} else {
 						r.Outcome(rel.name + " premise false")
 					}
@@ -766,14 +858,10 @@ func tripleCase(c *engine.Ctx, i int) {
 var vmKinds = []string{"Int", "Float", "BigFloat"}
 
 func elkSrc(v *val) (string, bool) {
-	if strings.Contains(v.label, ";") || strings.HasPrefix(v.label, "BigFloat ") {
+	if strings.HasPrefix(v.label, "BigFloat ") {
 		return "", false
 	}
-	s := v.label
-	if strings.HasPrefix(s, "-") || strings.Contains(s, " ") {
-		s = "(" + s + ")"
-	}
-	return s, true
+	return "(" + v.label + ")", true
 }
 
 type vmRow struct {
@@ -812,7 +900,7 @@ func vmPass(c *engine.Ctx) {
 		sfx := strings.ToLower(g.ka + "_" + g.kb)
 		// ordering + =~ in one function, == and hash in another (a crash of one must not hide the other)
 		c.Case(fmt.Sprintf("vm/order/%s,%s", g.ka, g.kb), func(r *engine.R) {
-			pre := elkrun.ShowPrelude + fmt.Sprintf(`def ord_%s(a: %s, b: %s): String
+			pre := elkrun.ShowPrelude + valPrelude + fmt.Sprintf(`def ord_%s(a: %s, b: %s): String
   lt := a < b
   le := a <= b
   gt := a > b
@@ -845,6 +933,7 @@ end
 				case ir.Rejected:
 					r.Count("vm_pairs_rejected_by_checker", 1)
 					r.Outcome("vm: kinds not comparable statically")
+					r.Note("rejected: " + items[i].Code + ": " + firstLine(ir.Diags))
 					continue
 				case ir.Err != "":
 					r.Count("vm_pairs_raising", 1)
@@ -864,8 +953,31 @@ end
 					r.NT(1)
 				}
 				lt, le, gt, ge, lx, cs := f[0] == "true", f[1] == "true", f[2] == "true", f[3] == "true", f[4] == "true", f[5]
+				// compare with the answers of the runtime helpers for the same pair: a law broken identically at both
+				// levels is reported by num-pairs; here only what the compiled code adds
+				t := tables()
+				var differs []string
+				for _, x := range []struct {
+					op string
+					vm bool
+					g  obs
+				}{{"<", lt, t.lt[a.nidx][b.nidx]}, {"<=", le, t.le[a.nidx][b.nidx]}, {">", gt, t.gt[a.nidx][b.nidx]}, {">=", ge, t.ge[a.nidx][b.nidx]}, {"=~", lx, t.lax[a.nidx][b.nidx]}} {
+					if x.g.ok && x.g.b != x.vm {
+						differs = append(differs, x.op)
+					}
+				}
+				if g := t.cmp[a.nidx][b.nidx]; g.ok && !g.isNil && fmt.Sprint(g.n) != cs {
+					differs = append(differs, "<=>")
+				}
 				viol := func(law, detail string) {
-					r.Violation(fmt.Sprintf("vm disagree %s kinds=%s", law, fp), fmt.Sprintf("%s\nprinted (a<b a<=b a>b a>=b a=~b a<=>b): %s\n%s%s", desc, strings.TrimSpace(ir.Out), detail, exactNote(a, b)), desc)
+					if len(differs) == 0 {
+						r.Count("vm_law_violations_identical_to_go_level", 1)
+						return
+					}
+					for _, op := range differs {
+						r.Violation(fmt.Sprintf("vm %s %s inconsistent for a statically typed %s left operand (differs from the runtime helpers)", opName[op], op, g.ka),
+							fmt.Sprintf("%s\nprinted (a<b a<=b a>b a>=b a=~b a<=>b): %s\nviolated law: %s %s%s", desc, strings.TrimSpace(ir.Out), law, detail, exactNote(a, b)), desc)
+					}
 				}
 				var n int
 				switch cs {
@@ -901,9 +1013,9 @@ end
 			}
 		})
 		c.Case(fmt.Sprintf("vm/eqhash/%s,%s", g.ka, g.kb), func(r *engine.R) {
-			pre := fmt.Sprintf(`def eqh_%s(a: %s, b: %s): String
+			pre := valPrelude + fmt.Sprintf(`def eqh_%s(a: %s, b: %s): String
   e1 := a == b
-  e2 := b == a
+  e2 := b.==(a)
   h := a.hash == b.hash
   e1.inspect + " " + e2.inspect + " " + h.inspect
 end
@@ -930,6 +1042,7 @@ end
 					continue
 				case ir.Rejected:
 					r.Count("vm_pairs_rejected_by_checker", 1)
+					r.Note("rejected: " + items[i].Code + ": " + firstLine(ir.Diags))
 					continue
 				case ir.Err != "":
 					r.Count("vm_pairs_raising", 1)
@@ -944,14 +1057,25 @@ end
 					r.NT(1)
 				}
 				e1, e2, h := f[0] == "true", f[1] == "true", f[2] == "true"
+				// the same observation through the runtime helpers
+				g1, g2 := opEq(a.v, b.v), opEq(b.v, a.v)
+				ha, hb := opHash(a.v), opHash(b.v)
+				same := g1.ok && g2.ok && ha.ok && hb.ok && g1.b == e1 && g2.b == e2 && (ha.h == hb.h) == h
+				report := func(sig, detail string) {
+					if same {
+						r.Count("vm_law_violations_identical_to_go_level", 1)
+						return
+					}
+					r.Violation(sig, detail, desc)
+				}
 				if e1 != e2 {
-					r.Violation("vm == not symmetric kinds="+fp, fmt.Sprintf("%s\nprinted (a==b b==a hash-equal): %s", desc, ir.Out), desc)
+					report("vm == not symmetric kinds="+fp, fmt.Sprintf("%s\nprinted (a==b b==a hash-equal): %s", desc, ir.Out))
 				}
 				if e1 && !h {
-					r.Violation("vm == without equal hash kinds="+fp, fmt.Sprintf("%s\nprinted (a==b b==a hash-equal): %s", desc, ir.Out), desc)
+					report("vm == without equal hash kinds="+fp, fmt.Sprintf("%s\nprinted (a==b b==a hash-equal): %s", desc, ir.Out))
 				}
 				if a.idx == b.idx && !a.nan && !e1 {
-					r.Violation("vm == not reflexive kind="+g.ka, fmt.Sprintf("%s\nprinted: %s", desc, ir.Out), desc)
+					report("vm == not reflexive kind="+g.ka, fmt.Sprintf("%s\nprinted: %s", desc, ir.Out))
 				}
 				r.Outcome(fmt.Sprintf("vm eq=%v hash-equal=%v", e1, h))
 			}
